@@ -1,4 +1,7 @@
 import RsslVerif.Model.Targets
+import RsslVerif.Model.SimplifyCbuffers
+import RsslVerif.Model.HlslModule
+import RsslVerif.Driver.C17
 import RsslVerif.Driver.Util
 /-! Line-protocol front end of the C18 models (define list, compact macro model, reflected bindings, stage reports). -/
 namespace RsslVerif.Driver.C18
@@ -212,8 +215,105 @@ def handleCross (decls pipes verdicts : String) : String :=
       | none => "?")
   | _, _ => "bad-request"
 
+/-! ### C18.simplify: the program encoding of harness/src/c17/wgen.rs, resource items only -/
+
+open RsslVerif.Model.SimplifyCbuffers in
+/-- `R <name> <kind> <len|-> <group|-> <flags|-> ..` -> the root definition it declares -/
+def parseRoot (item : String) : Option (Option Root) :=
+  match (item.splitOn " ").filter (· ≠ "") with
+  | "R" :: name :: kind :: len :: _ :: flags :: _ =>
+    if kind == "cbuffer" then
+      let n := if len == "-" then some 1 else len.toNat?
+      n.map fun n => some (.cbuffer name ((List.range n).map fun i => name ++ "_v" ++ toString i))
+    else
+      let k := if kind == "TrapBuffer" then "StructuredBuffer" else kind
+      let arr : Option Arr := if len == "-" then some .single else if len == "0" then some .unsized else len.toNat?.map .sized
+      match ObjKind.ofName? k, arr with
+      | some ok, some a => some (some (.global name (.object ok a (flags.toList.contains 's'))))
+      | _, _ => none
+  | _ => some none
+
+open RsslVerif.Model.SimplifyCbuffers in
+def showRoot' : Root' → Option String
+  | .struct n ms => some ("struct:" ++ n ++ ":" ++ toString ms.length)
+  | .global n g fromCb =>
+    let kind := match g with
+      | .object .ConstantBuffer _ _ => "ConstantBuffer"
+      | .object _ _ _ => "obj"
+      | .plain _ => "plain"
+    some ("global:" ++ n ++ ":" ++ kind ++ (if fromCb then ":slot" else ""))
+  | .other => none
+
+open RsslVerif.Model.SimplifyCbuffers in
+def handleSimplify (prog : String) : String :=
+  if prog.isEmpty then "" else
+  match sequenceOpt ((prog.splitOn " | ").map parseRoot) with
+  | none => "unsupported"
+  | some roots => ";".intercalate ((simplify (roots.filterMap id)).filterMap showRoot')
+
+/-! ### C18.annot: how many annotations of each kind the DirectX / Vulkan export of every pipeline of a wide program has -/
+
+open RsslVerif.Model.HlslModule RsslVerif.Model.PipelineTyper in
+/-- the parameters of a generated entry-point shape that carry a user semantic, and what a mesh entry declares
+    per-primitive (harness/src/c17/wgen.rs `render_func`) -/
+def shapeFields (shape : String) : List Field × List String :=
+  let c := (shape.take 1).toString
+  if c == "r" then ([⟨"i_pos", none⟩, ⟨"i_material", some "MATERIAL"⟩], [])
+  else if c == "q" then ([], ["MATERIAL"])
+  else ([], [])
+
+open RsslVerif.Model.HlslModule RsslVerif.Model.SimplifyCbuffers in
+def globalOfRoot (p : Params) : Root → Option (GlobalDef Unit)
+  | .cbuffer n _ => some ⟨n, none, .single, some ()⟩
+  | .global n (.object k arr ss) => some ⟨n, some k, arr, if hasSlot p (.object k arr ss) then some () else none⟩
+  | .global n (.plain arr) => some ⟨n, none, arr, none⟩
+  | .other => none
+
+open RsslVerif.Model.HlslModule RsslVerif.Model.PipelineTyper in
+def annotCounts (forSpirv : Bool) (p : Params) (roots : List (RsslVerif.Model.HlslModule.Root Unit Unit))
+    (stages : List (Stage × Nat)) : String :=
+  let m : RsslVerif.Model.HlslModule.Module Unit Unit := { roots := roots, pipeline := some stages }
+  match genModule (ε := Unit) forSpirv p (fun _ => "T") (fun _ _ => .ok ()) m with
+  | .error _ => "?"
+  | .ok ts => let (a, b, c, d) := counts ts; s!"{a},{b},{c},{d}"
+
+open RsslVerif.Model.HlslModule RsslVerif.Model.PipelineTyper in
+def handleAnnot (on prog : String) : String :=
+  let isOn := on == "on"
+  match C17.parseProgram isOn prog, sequenceOpt ((prog.splitOn " | ").map parseRoot) with
+  | some (items, none), some rroots =>
+    if C17.hasGarbage isOn prog || C17.hasRedefinition items then "unsupported" else
+    match typeCheck items with
+    | .error _ => "front"
+    | .ok st =>
+      if st.pipes.isEmpty then "none" else
+      let structs : List (RsslVerif.Model.HlslModule.Root Unit Unit) :=
+        [.struct ⟨"CbS", [⟨"v", none⟩]⟩, .struct ⟨"MeshVertex", [⟨"position", none⟩]⟩,
+         .struct ⟨"TaskPayload", [⟨"start_location", none⟩]⟩, .struct ⟨"MeshPrim", [⟨"material", some "MATERIAL"⟩]⟩,
+         .struct ⟨"LayoutTrap", [⟨"a", none⟩, ⟨"b", none⟩, ⟨"c", none⟩]⟩]
+      -- every function item is one generated root definition (a declaration and its definition are two)
+      let funcs : List (RsslVerif.Model.HlslModule.Root Unit Unit) := items.filterMap fun it =>
+        match it with
+        | .func f =>
+          if f.isTemplate then none else
+          let (ps, prims) := shapeFields f.shape
+          some (.func ⟨(st.reg.zipIdx.find? (fun q => sameFn f q.1)).map (·.2) |>.getD 0, ps, prims, ()⟩)
+        | .pipe _ => none
+      let rootsFor (p : Params) : List (RsslVerif.Model.HlslModule.Root Unit Unit) :=
+        structs ++ ((rroots.filterMap id).filterMap (globalOfRoot p)).map .global ++ funcs
+      String.join (st.pipes.map fun pl =>
+        let stages := pl.stages.map fun s => (s.stage, s.entry)
+        pl.name ++ "{dx:" ++ annotCounts false (paramsFor .HlslForDirectX false) (rootsFor (paramsFor .HlslForDirectX false)) stages ++
+          ";vk:" ++ annotCounts true (paramsFor .HlslForVulkan false) (rootsFor (paramsFor .HlslForVulkan false)) stages ++ "}")
+  | some (_, some _), _ => "front"
+  | _, _ => "unsupported"
+
 def handle (op : String) (args : List String) : String :=
   match op, args with
+  | "C18.simplify", [prog] => handleSimplify prog
+  | "C18.annot", [on, prog, backend] =>
+    let r := handleAnnot on prog
+    if backend == "backend=err" && r != "front" && r != "unsupported" then "back" else r
   | "C18.defines", [tgt] =>
     match parseTarget tgt with
     | some (t, _) => ";".intercalate ((targetDefines t).map fun d => d.1 ++ "=" ++ d.2)
